@@ -22,7 +22,7 @@ def make_auto_inline(cg, keep=KEEP):
         if len(c) != 1:
             return None
         p = next(iter(c))
-        if "{closure" in p.split("::")[-1]:
+        if "{closure" in p.split("::")[-1] or keep.search(p):
             return None
         return p
     return auto
